@@ -545,7 +545,7 @@ func (p *lifePeer) run1() (why string) {
 			p.stall()
 			return "exit#6b"
 		}
-		if p.isSelected() && p.beh.Kind == "stallRead" {
+		if p.isSelected() && (p.beh.Kind == "stallRead" || p.beh.Kind == "stallReadShortCtx") {
 			// stop reading: the library's next write blocks until its write timeout
 			p.markFailed()
 			<-p.quit
